@@ -5,6 +5,8 @@
 -/
 import PyGqlModel.Sdl
 import PyGqlModel.SdlExtend
+import PyGqlModel.SdlAdditional
+import PyGqlModel.SdlInProgress
 import PyGqlModel.Props.C11
 
 set_option linter.unusedVariables false
@@ -341,6 +343,85 @@ theorem build_rejects (doc : Doc) (ie : Bool) (add : List TypeD) (e : Err) (h : 
     · rcases bind_err _ _ _ h2 with h5 | ⟨_, _, h6⟩
       · exact extendSchema_err env live doc add e h5
       · simp [pure, Except.pure] at h6
+
+/-! ### the refined model of `additional_types` (PyGqlModel/SdlAdditional.lean) has the same rejection classes -/
+
+private theorem buildCollectedA_err (c : Collected) (add : List TypeD) (e : Err) (h : buildCollectedA c add = .error e) : Good e := by
+  unfold buildCollectedA at h
+  simp only [] at h
+  rcases bind_err _ _ _ h with h1 | ⟨_, _, h2⟩
+  · rw [failIf_err _ _ _ h1]; exact good_rec
+  · rcases bind_err _ _ _ h2 with h3 | ⟨_, _, h4⟩
+    · exact mapM_err _ (buildDirective_err _) _ e h3
+    · rcases bind_err _ _ _ h4 with h5 | ⟨_, _, h6⟩
+      · exact mapM_err _ (buildType_err _) _ e h5
+      · rcases bind_err _ _ _ h6 with h7 | ⟨_, _, h8⟩
+        · rw [failIf_err _ _ _ h7]; exact good_lib _
+        · rcases bind_err _ _ _ h8 with h9 | ⟨_, _, h10⟩
+          · exact buildRoots_err _ _ _ e h9
+          · rcases bind_err _ _ _ h10 with h11 | ⟨_, _, h12⟩
+            · rw [failIf_err _ _ _ h11]; exact good_lib _
+            · rcases bind_err _ _ _ h12 with h13 | ⟨_, _, h14⟩
+              · rw [failIf_err _ _ _ h13]; exact good_lib _
+              · simp [pure, Except.pure] at h14
+
+private theorem extendSchemaA_err (env : Env) (live : Live) (doc : Doc) (add : List TypeD) (e : Err) (h : extendSchemaA env live doc add = .error e) : Good e := by
+  unfold extendSchemaA at h
+  simp only [] at h
+  split at h
+  · simp [pure, Except.pure] at h
+  · rcases bind_err _ _ _ h with h0 | ⟨_, _, h'⟩
+    · rw [failIf_err _ _ _ h0]; exact good_lib _
+    · rcases bind_err _ _ _ h' with h1 | ⟨_, _, h2⟩
+      · exact mapM_err _ (fun t e h => extendTypeX_err env _ _ _ t e h) _ e h1
+      · rcases bind_err _ _ _ h2 with h1' | ⟨_, _, h2'⟩
+        · exact mapM_err _ (fun t e h => reDefault_err env _ _ _ t e h) _ e h1'
+        · rcases bind_err _ _ _ h2' with h1'' | ⟨_, _, h2''⟩
+          · exact mapM_err _ (reDefaultDirective_err env _ _) _ e h1''
+          · rcases bind_err _ _ _ h2'' with h3 | ⟨_, _, h4⟩
+            · rw [failIf_err _ _ _ h3]; exact good_lib _
+            · rcases bind_err _ _ _ h4 with h5 | ⟨_, _, h6⟩
+              · exact foldlM_err _ (fun acc x e h => addOps_err _ _ _ _ e h) _ _ e h5
+              · rcases bind_err _ _ _ h6 with h7 | ⟨_, _, h8⟩
+                · rw [failIf_err _ _ _ h7]; exact good_lib _
+                · simp [pure, Except.pure] at h8
+
+/-- **build_rejects for the refined model of `additional_types`** (`buildA`: same-name supplied types, transitive
+    registry closure, supplied types shadowing specified ones, extended supplied enums / input objects): whatever the
+    document, the flags and the supplied types, a rejection is `SDLError`, `ExtensionError`, `SchemaError` or the
+    `RecursionError` of finding S1b. -/
+theorem buildA_rejects (doc : Doc) (ie : Bool) (add : List TypeD) (e : Err) (h : buildA doc ie add = .error e) :
+    (∃ l, e = .lib l) ∨ e = .internal "RecursionError" := by
+  unfold buildA at h
+  simp only [] at h
+  rcases bind_err _ _ _ h with h3 | ⟨c, _, h4⟩
+  · rw [collect_rejects_sdl doc e h3]; exact good_lib _
+  · rcases bind_err _ _ _ h4 with h1 | ⟨⟨env, live⟩, _, h2⟩
+    · exact buildCollectedA_err c _ e h1
+    · simp only [] at h2
+      split at h2
+      · simp [pure, Except.pure] at h2
+      · rcases bind_err _ _ _ h2 with h5 | ⟨_, _, h6⟩
+        · exact extendSchemaA_err env live doc _ e h5
+        · simp [pure, Except.pure] at h6
+
+/-- … and so has the model with the builder's real in-progress bookkeeping (`buildP`, PyGqlModel/SdlInProgress.lean) -/
+theorem buildP_rejects (doc : Doc) (ie : Bool) (add : List TypeD) (e : Err) (h : buildP doc ie add = .error e) :
+    (∃ l, e = .lib l) ∨ e = .internal "RecursionError" := by
+  unfold buildP at h
+  simp only [] at h
+  rcases bind_err _ _ _ h with h3 | ⟨c, _, h4⟩
+  · rw [collect_rejects_sdl doc e h3]; exact good_lib _
+  · rcases bind_err _ _ _ h4 with h1 | ⟨⟨env, live⟩, _, h2⟩
+    · exact buildCollectedA_err c _ e h1
+    · simp only [] at h2
+      split at h2
+      · simp [pure, Except.pure] at h2
+      · rcases bind_err _ _ _ h2 with h5 | ⟨_, _, h6⟩
+        · exact extendSchemaA_err _ _ _ _ e h5
+        · split at h6
+          · simp only [sdlErr] at h6; cases h6; exact good_lib _
+          · simp [pure, Except.pure] at h6
 
 /-- `input A { a: A = {a: null} }  type Query { f(a: A): Int }` (finding S1b) -/
 def s1bDoc : Doc := [
